@@ -145,6 +145,25 @@ NEEDS = {
     "C17-7": "`validate --payload -i params`: the parameter files are ignored altogether",
     "C18-7": "count(q) where the first result of q is unresolved and later ones resolve: 0",
     "C19-7": "a YAML template with short-form tags (a tag on a mapping node, !Join \"x\", !Ref 123): rulegen emits rules its own template FAILs",
+    "C01-8": "a binary clause whose right-hand side is a query (or query-bound variable) that selects nothing while the left side selects something: compared instead of SKIP",
+    "C02-8": "`not p(args)` where the called parameterised rule evaluates to SKIP: FAIL instead of PASS",
+    "C03-8": "a prefix not/NOT/! on a clause quantified with `some`: negated twice, i.e. ignored",
+    "C04-8": "a map with two case-variant spellings of one key addressed in a third spelling, after a lookup that only a later case converter satisfies: the converter order follows the earlier lookup",
+    "C05-8": "validate on a data directory without -a/-m whose files were saved in another order: file order (and every structured output) follows the modification times",
+    "C06-8": "validate --payload with a blank or unparsable entry in the data array: the entry is dropped, exit 0 / 19 instead of an error",
+    "C07-8": "non-structured validate with --print-json and a failing data file: exit 0",
+    "C08-8": "a quoted key that starts with `%` followed by something that is no variable name (\"% used\", '%'): panic",
+    "C09-8": "a failing `in` / `==` between two queries with partial matches: the values that DO match are listed as failed checks too",
+    "C10-8": "a data mapping with an empty-string key whose value is a map or list: descendants are reported under /a/x instead of /a//x",
+    "C11-8": "a string with an embedded NUL (\"ab\\u0000cd\") loaded by validate: cut at the NUL",
+    "C12-8": "an empty or blank rules file listed (or walked) before other rules files: the later rules files are silently dropped",
+    "C13-8": "a regular expression bound to a variable and written on the LEFT of == / != (%re == name): string and pattern swap roles",
+    "C14-8": "a file-level `when .. { }` block whose body names a rule on a line of its own: rejected by the parser",
+    "C15-8": "a parameterised rule called with an argument query that selects nothing: the parameter falls through to a same-named variable of the caller (or cannot be resolved)",
+    "C16-8": "a rule name defined twice with another rule between the definitions: `test` only looks at the last run of definitions",
+    "C17-8": "a parameter file that is a symbolic link to a regular file: skipped silently",
+    "C18-8": "parse_char of an integer k*2^32 + d (d a digit): the digit instead of an error",
+    "C19-8": "two resources of one type whose logical ids are not adjacent in sorted order (another type sorts between them): only the last run's values reach the rule",
 }
 
 
